@@ -85,16 +85,16 @@ BUDGET = {"quick": 60, "thorough": 540}
 FLOORS = {
     "quick": {"evaluations": 1600, "distinct_nontrivial": 1150,
               "counters": {"stages": 5500, "stages_known_divisions": 4800, "partitions_checked": 11500,
-                           "accessor_views": 3400, "known:from_pandas": 1300, "known:repartition": 1900,
-                           "known:loc": 250, "known:set_index": 150, "known:align": 100, "known:blockwise": 100,
-                           "known:filter": 50, "known:map_partitions": 40, "known:concat0": 30, "known:window": 60},
+                           "accessor_views": 3400, "known:from_pandas": 1400, "known:repartition": 2100,
+                           "known:loc": 270, "known:set_index": 150, "known:align": 150, "known:blockwise": 190,
+                           "known:filter": 95, "known:map_partitions": 85, "known:concat0": 70, "known:window": 150},
               "sets": {"known_stage_variants": 40}, "max_skipped_fraction": 0.1},
-    "thorough": {"evaluations": 12000, "distinct_nontrivial": 9000,
-                 "counters": {"stages": 45000, "stages_known_divisions": 38000, "partitions_checked": 90000,
-                              "accessor_views": 25000, "known:from_pandas": 10000, "known:repartition": 14000,
-                              "known:loc": 2500, "known:set_index": 1500, "known:align": 1000,
-                              "known:blockwise": 1000, "known:filter": 500, "known:map_partitions": 400,
-                              "known:concat0": 300, "known:window": 600},
+    "thorough": {"evaluations": 11000, "distinct_nontrivial": 8000,
+                 "counters": {"stages": 40000, "stages_known_divisions": 34000, "partitions_checked": 85000,
+                              "accessor_views": 22000, "known:from_pandas": 10000, "known:repartition": 11000,
+                              "known:loc": 2200, "known:set_index": 1200, "known:align": 1200,
+                              "known:blockwise": 1500, "known:filter": 750, "known:map_partitions": 700,
+                              "known:concat0": 550, "known:window": 1200},
                  "sets": {"known_stage_variants": 45}, "max_skipped_fraction": 0.1},
 }
 EXHAUSTIVE_SPACE = {
@@ -769,7 +769,7 @@ def _run_exhaustive(case, ctx):
     state = {"index": idx, "from_pandas": {case["how"]: case["k"]}}
     dups = len(set(idx)) < len(idx)
     ctx.op("exhaustive:" + vt)
-    base_stage = "from_pandas:%s:%s-index%s" % (case["how"], vt, "&dups" if dups else "")
+    base_stage = "from_pandas:%s:%s-index" % (case["how"], "dups" if dups else "unique")
     try:
         ddf = dd.from_pandas(pdf, **{case["how"]: case["k"]})
     except Exception as e:  # noqa: BLE001
@@ -825,7 +825,8 @@ def _run_random(case, ctx, dd):
     kw = {base["how"]: max(1, base["k"])}
     if not base["sort"]:
         kw["sort"] = False
-    stage = "from_pandas:%s%s:%s-index%s" % (base["how"], "" if base["sort"] else "&sort=False", case["index"],
+    stage = "from_pandas:%s%s:%s-index%s" % (base["how"], "" if base["sort"] else "&sort=False",
+                                             "dups" if pdf.index.has_duplicates else "unique",
                                              "" if mono or not base["sort"] else "&sorts")
     state["pipeline"].append("from_pandas(%r)" % (kw,))
     ctx.op("from_pandas:" + case["index"])
